@@ -22,6 +22,22 @@ theorem mem_extract_filterMap (ts : List Target) (g : T → Option Loc) (f : T) 
     obtain ⟨tag, kids, rfl, _, hk'⟩ := hk n l hg
     simpa [hasKind] using hk'
 
+/-- the same, for any result type -/
+theorem mem_extract_filterMap' {α : Type} (ts : List Target) (g : T → Option α) (f : T) (a : α)
+    (hk : ∀ n a, g n = some a → ∃ tag kids, n = .node tag kids ∧ isNodeTag tag = true ∧ specKind tag ∈ ts) :
+    a ∈ (extract ts f).filterMap g ↔ ∃ n ∈ allNodes f, g n = some a := by
+  rw [List.mem_filterMap]
+  constructor
+  · rintro ⟨n, hn, hg⟩
+    exact ⟨n, (extract_mem ts f n hn).1, hg⟩
+  · rintro ⟨n, hn, hg⟩
+    refine ⟨n, ?_, hg⟩
+    rw [C01]
+    apply List.mem_filter.2
+    refine ⟨hn, ?_⟩
+    obtain ⟨tag, kids, rfl, _, hk'⟩ := hk n a hg
+    simpa [hasKind] using hk'
+
 /-- the same for a detector that collects several locations per node -/
 theorem mem_extract_flatMap (ts : List Target) (g : T → List Loc) (f : T) (l : Loc)
     (hk : ∀ n l, l ∈ g n → ∃ tag kids, n = .node tag kids ∧ isNodeTag tag = true ∧ specKind tag ∈ ts) :
